@@ -66,6 +66,11 @@ func (g *G) Insert() ([]Tok, *ast.InsertStatement) {
 			g.Names.Columns[c.name] = true
 			t = cat(t, sym("(", c.src, ")"))
 			oc.Target = []ast.Expression{&ast.Identifier{Name: c.name}}
+		} else if g.F.Corners && g.chance(50, "onconstraint") {
+			g.use("on_conflict_on_constraint")
+			cn := []ident{bare("uq1"), q("my c")}[g.intn(2, "constraintname")]
+			t = cat(t, g.kw("ON", "CONSTRAINT"), sym(cn.src))
+			oc.Constraint = cn.name
 		}
 		if g.chance(40, "donothing") {
 			t = cat(t, g.kw("DO", "NOTHING"))
